@@ -54,7 +54,18 @@ def _g(grps):
     return np.array(grps[0]) if len(grps) == 1 else np.array(grps)
 
 
-@ob("C15", params=[dict(c, version=v) for c in CFG for v in (None, 1)], max_paths=40000,
+def _sym_params():
+    out = []
+    for c in CFG:
+        for v in (None, 1):
+            d = dict(c, version=v)
+            if c["shape"] == (2, 2, 2, 2) and v == 1:
+                d["_tier"] = "quick"  # two groups, older algorithm: pure data movement, one path
+            out.append(d)
+    return out
+
+
+@ob("C15", params=_sym_params(), max_paths=40000,
     bounds="symbolic entries; one or two disjoint groups of equal-sized modes incl. proper subsets of the modes; both algorithm versions")
 def dense_symmetrize(E, shape, grps, version):
     """symmetrize == average over within-group permutations; result passes the test; idempotent"""
@@ -161,3 +172,16 @@ def kruskal_issymmetric_exact(E, N, R):
         E.true(same, "answered True: factor matrices equal")
     else:
         E.true(~same, "answered False: some factor matrices differ")
+
+
+@ob("C15", params=[dict(N=2, R=1), dict(N=2, R=2, _tier="thorough"), dict(N=3, R=1, _tier="thorough")], max_paths=40000, wall_s=600,
+    bounds="Kruskal tensor symmetric by construction (identical symbolic factor matrices), symbolic weights of any sign")
+def kruskal_symmetric_input(E, N, R):
+    """an already symmetric Kruskal tensor keeps its value under symmetrize"""
+    U = E.reals("U", (2, R))
+    w = E.reals("w", (R,))
+    K = ttb.ktensor([U.copy() for _ in range(N)], w, copy=False)
+    before = O.den(K)
+    E.true(bool(K.issymmetric()), "identical factors pass ktensor.issymmetric")
+    Y = K.symmetrize()
+    E.eq(O.den(Y), before, "symmetric Kruskal tensor keeps its value")
